@@ -290,9 +290,11 @@ func c17NumberScenario(x *mc.X) *mc.Outcome {
 			pred func(int) bool
 			msg  string
 		}
-		req   bool
-		def   *int
-		catch *int
+		req     bool
+		reqMsg  string
+		reqPath string
+		def     *int
+		catch   *int
 	}
 	m := &model{}
 	s := z.Int()
@@ -329,8 +331,13 @@ func c17NumberScenario(x *mc.X) *mc.Outcome {
 			}{code, pred, msg})
 			chain = append(chain, fmt.Sprintf("%s/opt%d", []string{"GT(2)", "LT(10)", "EQ(5)"}[c], opt))
 		case 3:
-			s, m.req = s.Required(), true
-			chain = append(chain, "Required()")
+			if x.Bool("requiredWithOptions") {
+				s, m.req, m.reqMsg, m.reqPath = s.Required(z.Message("REQ"), z.IssuePath("reqpath")), true, "REQ", "reqpath"
+				chain = append(chain, "Required(Message,IssuePath)")
+			} else {
+				s, m.req, m.reqMsg, m.reqPath = s.Required(), true, "", ""
+				chain = append(chain, "Required()")
+			}
 		case 4:
 			s, m.req = s.Optional(), false
 			chain = append(chain, "Optional()")
@@ -376,7 +383,11 @@ func c17NumberScenario(x *mc.X) *mc.Outcome {
 			case m.catch != nil:
 				wantDest, done = *m.catch, true
 			default:
-				want, done = []string{"required|*"}, true
+				msg := "*"
+				if m.reqMsg != "" {
+					msg = m.reqMsg
+				}
+				want, done = []string{"required|" + msg + "|" + m.reqPath}, true
 			}
 		} else if coerceFail {
 			if m.catch != nil {
@@ -409,6 +420,13 @@ func c17NumberScenario(x *mc.X) *mc.Outcome {
 				if t.msg != "" && t.msg == is.Message {
 					msg = is.Message
 				}
+			}
+			if is.Code == "required" {
+				if is.Message == "REQ" {
+					msg = "REQ"
+				}
+				got = append(got, is.Code+"|"+msg+"|"+is.Path)
+				continue
 			}
 			got = append(got, is.Code+"|"+msg)
 		}
